@@ -81,6 +81,8 @@ type scheduler struct {
 	arrivals   []string // task@point in order of arrival at the points
 	preempt    int      // number of resumptions that switched away from a task parked inside an operation
 	inOpSwitch bool
+	// lateArrivals counts events of tasks that had been marked blocked.
+	lateArrivals int
 }
 
 func newScheduler() *scheduler {
@@ -178,6 +180,12 @@ func (s *scheduler) spawn(name string, fn func(yield func(point string))) *sched
 }
 
 func (s *scheduler) absorb(e schedEvent) {
+	if e.t.state == tsBlocked {
+		// A task that had been given up as waiting moved on by itself: from
+		// the moment it was given up it ran next to whatever was resumed
+		// since. Still a real execution, but no longer one task at a time.
+		s.lateArrivals++
+	}
 	if e.done {
 		e.t.state = tsDone
 		return
